@@ -34,7 +34,7 @@ ASSUMPTIONS = [
 
 @st.composite
 def spec(draw, mode):
-    dt = draw(st.sampled_from(['float32', 'float64'])) if mode == 'x64' else 'float32'
+    dt = draw(st.sampled_from(['float32', 'float64', 'int32'])) if mode == 'x64' else draw(st.sampled_from(['float32', 'float32', 'int32']))
     nd = draw(st.integers(0, 4))
     dims_pool = [1, 2, 3, 4, 5]
     shape = []
@@ -95,7 +95,10 @@ def spec(draw, mode):
     else:
         S = {'t': layout, 'items': leaves}
     return {'S': S, 'vals': vals, 'axis': axis, 'cls': draw(st.sampled_from(['diag', 'bdiag'])),
-            'as_list': draw(st.booleans()), 'vdtype': 'float32',
+            'as_list': draw(st.booleans()),
+            # the values may be wider than the leaves (fractional values on integer leaves, float64 on float32):
+            # the product follows NumPy/JAX promotion
+            'vdtype': draw(st.sampled_from(['float32', 'float32', 'float64'])) if mode == 'x64' else 'float32',
             'special': draw(st.sampled_from([None] * 12 + ['scalar_values', 'pytree_values'])),
             'probe': draw(st.lists(st.integers(0, 1000), min_size=6, max_size=6))}
 
@@ -177,10 +180,17 @@ def check(recipe, mode):
         must_raise(f'illegal-spec:{recipe["cls"]}', cls, vals, axis_destination=axis, in_structure=St.to_jax(S), exc=(ValueError,))
         return {'nontrivial': True, 'classes': classes + ['illegal:' + why.split()[0]]}
     op = must_not_raise('construct', cls, vals, axis_destination=axis, in_structure=St.to_jax(S))
-    out_S = St.replace_leaves(S, [(o.shape, dt) for o, (_, dt) in zip(outs, St.leaves(S))])
+    # dtype of each product: promotion of the (strongly typed) values with the leaf
+    prom = [str(np.dtype(jnp.result_type(jnp.dtype(recipe['vdtype']), jnp.dtype(dt_)))) for _, dt_ in St.leaves(S)]
+    wider = any(p_ != dt_ for p_, (_, dt_) in zip(prom, St.leaves(S)))
+    out_S = St.replace_leaves(S, [(o.shape, p_) for o, p_ in zip(outs, prom)])
     declared = must_not_raise('out_structure', op.out_structure)
-    if not St.same_structure(out_S, declared):
-        raise Violation('out_structure', f'declared {St.describe(declared)}; expected {St.describe(St.to_jax(out_S))}')
+    # (the strict class is declared square: with values wider than a leaf its declared dtype is the leaf's - parameters
+    # wider than the data are outside C05's domain - so only tree and shapes are compared in that case)
+    decl_S = out_S if not (wider and recipe['cls'] == 'diag') else St.replace_leaves(
+        S, [(o.shape, dt_) for o, (_, dt_) in zip(outs, St.leaves(S))])
+    if not St.same_structure(decl_S, declared):
+        raise Violation('out_structure', f'declared {St.describe(declared)}; expected {St.describe(St.to_jax(decl_S))}')
     x = St.build_value(S, xs)
     y = must_not_raise('mv', op.mv, x)
     if not St.same_structure(out_S, y):
@@ -190,7 +200,9 @@ def check(recipe, mode):
     if not np.array_equal(got, want):
         raise Violation('mv-value', f'got {got[:12]} want {want[:12]} (vals shape {np.shape(recipe["vals"])}, axis {recipe["axis"]}, leaf shapes {[s for s, _ in St.leaves(S)]})')
     # strict class: dense form = diagonal of the broadcast values in leaf order
-    if recipe['cls'] == 'diag':
+    if recipe['cls'] == 'diag' and not wider:
+        # (with values wider than a leaf the strict class - declared square - builds its dense form in the leaf dtype:
+        # parameters wider than the data are outside the domain in which dense forms are judged)
         M = np.asarray(must_not_raise('as_matrix', op.as_matrix), dtype=float)
         d = np.concatenate([ops.diag_apply(np.asarray(recipe['vals'], dtype=float), tuple(recipe['axis']) if isinstance(recipe['axis'], list) else recipe['axis'],
                                            np.ones(sh), True).reshape(-1) for sh, _ in St.leaves(S)])
@@ -228,4 +240,6 @@ def check(recipe, mode):
         classes.append('mixed_ranks')
     classes.append('int_axis' if isinstance(recipe['axis'], int) else 'tuple_axis')
     classes.append(f'vrank:{np.ndim(recipe["vals"])}')
+    if wider:
+        classes.append('values_wider_than_leaf')
     return {'nontrivial': bool(nontrivial), 'classes': classes}
